@@ -64,6 +64,7 @@ class Credit(object):
         self.consumed = False
         self.barrier = None
         self.branches = []
+        self.beside_fail = False
         self.void = False
 
     def __repr__(self):
@@ -442,7 +443,9 @@ class Ledger(object):
                     self._arrive(tgt, x, i, out)
                 else:
                     r = None if self.split[tgt] else x.route
-                    self.credits.append(Credit(tgt, r, "transition", out, [x.xid], cleanup=has_fail, tr=i))
+                    cr = Credit(tgt, r, "transition", out, [x.xid], cleanup=has_fail, tr=i)
+                    cr.beside_fail = has_fail
+                    self.credits.append(cr)
         if any_fail:
             # the engine keeps every task that became ready at this completion runnable after the
             # fail command (run-on-fail): the documented clean-up exception
